@@ -224,7 +224,7 @@ fn run_case(ctx: &mut Ctx, idx: u64) {
         }
         let accepted_end = fail.is_none() && (if m.is_stopped() { m.stop_reason().is_ok() } else { m.is_accepting().unwrap_or(false) });
         if fail.is_some() || !accepted_end || vt != toks.len() {
-            if is_resource_stop(&m) {
+            if is_resource_stop(&m) || resource_stop_on_replay(&f, &g, &toks) {
                 ctx.rep.inconclusive("resource_stop");
                 continue;
             }
